@@ -3,6 +3,7 @@ import itertools
 
 from hypothesis import strategies as st
 from metapype.eml import rule as R
+from vf.shipped import RULES
 from metapype.eml import validate
 from metapype.eml.exceptions import ChildNotAllowedError
 from metapype.model.node import Node
@@ -25,7 +26,7 @@ ASSUMPTIONS = [
 
 
 def member_fast(rn, w):
-    spec, alpha, mixed, dfa = lang.rule_lang(R.rules_dict, rn)
+    spec, alpha, mixed, dfa = lang.rule_lang(RULES, rn)
     if not dfa.accepts(w):
         return True, False
     strict = lang.accepts(spec, tuple(w), True, mixed)
@@ -37,7 +38,7 @@ def get_rule(rn):
 
 
 def names_of(rn):
-    return lang.rule_lang(R.rules_dict, rn)[1][:-1]
+    return lang.rule_lang(RULES, rn)[1][:-1]
 
 
 class Ctxt:
@@ -49,7 +50,7 @@ class Ctxt:
         self.rule = R.get_rule(self.parent.name) if self.mapped else get_rule(rn)
         self.kids = {}
         self.names = names_of(rn)
-        self.rank = {n: i for i, n in enumerate(lang.spec_names(R.rules_dict[rn][1]))}
+        self.rank = {n: i for i, n in enumerate(lang.spec_names(RULES[rn][1]))}
 
     def index(self, e, c):
         ch = []
@@ -116,7 +117,7 @@ def judge(cx, e, c):
 def check_allowed(ctx, rn, r=None, used=False):
     """is_allowed_child on a fresh Rule object, or (used=True) on the object that has just answered many
     child_insert_index calls including refused foreign candidates: the answers must not drift"""
-    spec, alpha, mixed, dfa = lang.rule_lang(R.rules_dict, rn)
+    spec, alpha, mixed, dfa = lang.rule_lang(RULES, rn)
     useful = dfa.useful_letters()
     r = r or get_rule(rn)
     for x in alpha + ["zzOther", "", "eml", "dataset", "title"]:
@@ -147,7 +148,7 @@ def bound(A, budget):
 def plan(quick):
     budget = 20000 if quick else 300000
     tasks = []
-    for rn in sorted(R.rules_dict):
+    for rn in sorted(RULES):
         ns = names_of(rn)
         if len(set(ns)) != len(ns) or not ns:
             tasks.append((1, (rn, 0, 1, -1)))
@@ -270,7 +271,7 @@ def replay(case):
     rn = case["rule"]
     if "allowed_child_query" in case:
         x = case["allowed_child_query"]
-        useful = lang.rule_lang(R.rules_dict, rn)[3].useful_letters()
+        useful = lang.rule_lang(RULES, rn)[3].useful_letters()
         try:
             r = get_rule(rn)
             if case.get("after_refused_candidates"):
